@@ -17,6 +17,9 @@ CONSTANTS
   MaxSteps = 0
   StepCap <- CapT
   EmitDyn = FALSE
+  MaxHist = 0
+  MaxReorders = 0
+  UnitCfgs <- TimesT
   Times <- TimesT
   Tol = 0
   DriftTolE12 = 10000
